@@ -4,6 +4,7 @@ import os, subprocess, sys, hashlib, random, concurrent.futures
 
 VERIF = os.path.dirname(os.path.dirname(os.path.abspath(__file__)))
 BUILD = os.environ.get('CAT_BUILD', os.path.join(VERIF, 'build'))
+WORK = BUILD          # ./check points this at a private directory of the run (removed afterwards)
 REPO = os.environ.get('CAT_REPO', '/repo')
 CAPS = [1, 2, 3, 8]
 DRV_TAG = os.environ.get('CAT_DRV_TAG', '')      # set per property by ./check so that concurrent checks do not share binaries
@@ -162,10 +163,10 @@ def sh(cmd, **kw):
 def build_cdrivers(caps=CAPS, san=False, log=None):
     """(Re)build the C driver from /repo's current working tree, once per capacity.
     Returns (ok, message)."""
-    os.makedirs(BUILD, exist_ok=True)
+    os.makedirs(WORK, exist_ok=True)
     procs = []
     for cap in caps:
-        out = os.path.join(BUILD, 'cdriver_%s%scap%d' % (DRV_TAG, 'san_' if san else '', cap))
+        out = os.path.join(WORK, 'cdriver_%s%scap%d' % (DRV_TAG, 'san_' if san else '', cap))
         if os.path.exists(out):
             os.remove(out)
         if san:
@@ -255,7 +256,7 @@ def run_exe(exe_for_cap, scns, shards=16, timeout=600):
 
 
 def c_exe(cap, san=False):
-    return os.path.join(BUILD, 'cdriver_%s%scap%d' % (DRV_TAG, 'san_' if san else '', cap))
+    return os.path.join(WORK, 'cdriver_%s%scap%d' % (DRV_TAG, 'san_' if san else '', cap))
 
 
 def run_c(scns, san=False, **kw):
